@@ -39,14 +39,25 @@ def run_history(w, sc, mon, pair_seen):
     un = M.norm(sc["user"])
     chal = s.chal
     seen = [chal]
+    seen_set = {chal}
+    fresh_threads = bool(sc.get("fresh_threads"))
     accepted = []
     rejected = []
     prev_kind = "start"
     plan = sc.get("plan")
     n = len(plan) if plan else sc["length"]
     hist_log = []
+    if sc.get("very_long"):
+        n = sc["very_long"]
+        plan = None
     for step in range(n):
-        if plan:
+        if sc.get("very_long"):
+            # more than 2^16 attempts on one session; a captured pair is replayed at distances 2^16 and 2^16 + 1
+            if step in (65536, 65537, 65538) and accepted:
+                kind = "replay_accepted"
+            else:
+                kind = ("model_correct", "all_zero", "proof_bitflip")[step % 3] if step > 2 else "model_correct"
+        elif plan:
             kind = plan[step]
         else:
             # prefer an unseen (prev, kind) pair
@@ -73,7 +84,7 @@ def run_history(w, sc, mon, pair_seen):
         elif kind == "model_correct":
             proof = M.reconnect_proof(un, data, cur, K)
         elif kind == "replay_accepted":
-            data, proof = rnd.choice(accepted)
+            data, proof = accepted[0] if sc.get("very_long") else rnd.choice(accepted)
         elif kind == "replay_rejected":
             data, proof = rnd.choice(rejected)
         elif kind == "stale_challenge":
@@ -109,7 +120,12 @@ def run_history(w, sc, mon, pair_seen):
             proof = M.reconnect_proof(un, data, cur, K) if rnd.random() < 0.3 else bytes(rnd.getrandbits(8) for _ in range(20))
         else:
             data, proof = bytes(16), bytes(20)
-        r = w.call("srv_reconnect", h=5, data=data, proof=proof)
+        if fresh_threads:
+            # the session is served by a freshly spawned thread for this attempt
+            r = w.call("srv_reconnect", h=5, data=data, proof=proof, nt=1)
+            mon.count("attempts_served_by_a_fresh_thread")
+        else:
+            r = w.call("srv_reconnect", h=5, data=data, proof=proof)
         mon.ev()
         if r.status != "ok":
             viol("panic:verify_reconnection_attempt:" + kind, str(r.f))
@@ -124,11 +140,13 @@ def run_history(w, sc, mon, pair_seen):
         if res != expect:
             viol(("accepted_wrong:" if res else "rejected_right:") + kind,
                  "attempt %d kind=%s: verdict %s, expected %s (history so far %s)" % (step, kind, res, expect, hist_log[-6:]))
-        if after in seen:
+        if after in seen_set:
             viol("challenge_not_refreshed:after_" + ("accept" if res else "reject"),
                  "attempt %d kind=%s verdict=%s: challenge after the attempt equals an earlier challenge of this server" % (step, kind, res))
         seen.append(after)
-        (accepted if res else rejected).append((data, proof))
+        seen_set.add(after)
+        if len(accepted) + len(rejected) < 4000:
+            (accepted if res else rejected).append((data, proof))
         mon.count("accepted" if res else "rejected")
         pair_seen.add((prev_kind, kind))
         mon.cell((prev_kind, kind, res))
@@ -161,6 +179,10 @@ def worker(idx, nworkers, tier, seed, extra):
                 sc["plan"] = ["model_correct", "replay_accepted"] * 20
             elif i % 50 == 9:
                 sc["plan"] = ["proof_bitflip"] * 300 + ["lib_client", "all_zero"] * 3
+            elif i % 50 == 10:
+                sc["fresh_threads"] = True
+            if i == 3 and idx == 0:
+                sc["very_long"] = 66000
             run_history(w, sc, mon, pair_seen)
     except ExecutorDied as e:
         mon.violation("c05:executor_died", "executor died rc=%s" % e.rc, {"engine": "wsx", "kind": "raw", "commands": e.last_cmds})
